@@ -9,6 +9,8 @@
               statement over the materialised inner result, must both be Exec (rows and description)
      "in"     {"neg":b, "xs":[..], "col":[..], "obs":[..]}   x IN (q) per outer row against the logged inner column:
               obs[i] = NULL if xs[i] is NULL or col is empty, else membership (negated for NOT IN)
+     "inwh"   {"neg":b, "xs":[..], "col":[..], "kept":[..]}  SELECT x FROM t WHERE x IN (q): kept = the xs for which the
+              operator is TRUE, in order (xs and col from separate plain statements, values of any datatype)
      "rel"    {"nested":{..}, "mat":{..}}   statements over columns outside the model (decimals, dates, ...): values
               are opaque, the nested and the materialised form must agree (rows and description)
 
@@ -35,16 +37,24 @@ TInit == /\ l = 2 /\ nbad = 0
          /\ pc = 1 /\ curTable = Nil /\ stack = <<>>
          /\ nodes = Empty /\ colres = Empty /\ starx = Empty /\ iter = Empty /\ outs = Empty
 
+\* x IN (q) / x NOT IN (q) for one value x against the logged column of q.  The values of x and of the column are
+\* opaque pairs (any datatype: untyped metadata values, amounts, positions, sets, ...); equality is all that is used.
+InValue(x, col, neg) ==
+    LET member == \E m \in 1..Len(col) : col[m] = x
+    IN IF IsNull(x) \/ col = <<>> THEN Null ELSE B(IF neg THEN ~member ELSE member)
+
 InLaw(e) ==
     /\ Len(e.obs) = Len(e.xs)
-    /\ \A i \in 1..Len(e.xs) :
-         LET member == \E m \in 1..Len(e.col) : e.col[m] = e.xs[i]
-         IN e.obs[i] = IF IsNull(e.xs[i]) \/ e.col = <<>> THEN Null ELSE B(IF e.neg THEN ~member ELSE member)
+    /\ \A i \in 1..Len(e.xs) : e.obs[i] = InValue(e.xs[i], e.col, e.neg)
+
+\* ... WHERE x IN (q): the rows kept are those for which the operator is TRUE (not FALSE, not NULL), in order
+InWhereLaw(e) == e.kept = SelectSeq(e.xs, LAMBDA x : InValue(x, e.col, e.neg) = B(TRUE))
 
 Judge(e) ==
     CASE e.op = "query" -> /\ Obs(e.nested) = Exec
                            /\ ((e.hasmat /\ Restore) => Obs(e.mat) = Exec)
       [] e.op = "in" -> InLaw(e)
+      [] e.op = "inwh" -> InWhereLaw(e)
       [] e.op = "rel" -> Obs(e.nested) = Obs(e.mat) /\ e.nested.ok
       [] OTHER -> FALSE
 
